@@ -58,13 +58,37 @@ Definition stack_full (x : Z) (s : stack) : bool := s_size s <=? x + s_used s.
 
 Definition setup_stack (lwork : Z) : stack := mkStack lwork 0 0 lwork.
 
-Definition user_malloc (bytes : Z) (e : end_t) (s : stack) : option Z * stack :=
+(* NotDoubleAlign / DoubleAlign on the address  base + off,  base mod 8 = ba *)
+Definition misalign (ba off : Z) : Z := (ba + off) mod 8.
+Definition align_up_extra (ba off : Z) : Z := (8 - misalign ba off) mod 8.   (* DoubleAlign(a) - a *)
+
+(* ?user_malloc, TAIL end (since fix 'tail blocks are aligned by the allocator'):
+     extra = ( address of (stack.array + stack.top2 - bytes) ) & 7;
+   the address is positive, so  & 7  is  mod 8  of  ba + top2 - bytes *)
+Definition tail_extra (ba bytes : Z) (s : stack) : Z := misalign ba (s_top2 s - bytes).
+
+(* the byte count a granted request takes from the stack (what the C hook logs: `bytes` after `bytes += extra`) *)
+Definition granted_bytes (ba bytes : Z) (e : end_t) (s : stack) : Z :=
+  match e with HEAD => bytes | TAIL => bytes + tail_extra ba bytes s end.
+
+(* ?user_malloc (ba = (address of stack.array) mod 8), statement by statement:
+     if ( StackFull(bytes) ) return NULL;
+     HEAD:  buf = array + top1;  top1 += bytes;
+     TAIL:  extra = (array + top2 - bytes) & 7;  if ( StackFull(bytes + extra) ) return NULL;
+            bytes += extra;  top2 -= bytes;  buf = array + top2;
+     used += bytes; *)
+Definition user_malloc (ba bytes : Z) (e : end_t) (s : stack) : option Z * stack :=
   if stack_full bytes s then (None, s)
   else match e with
        | HEAD => (Some (s_top1 s),
                   mkStack (s_size s) (s_used s + bytes) (s_top1 s + bytes) (s_top2 s))
-       | TAIL => (Some (s_top2 s - bytes),
-                  mkStack (s_size s) (s_used s + bytes) (s_top1 s) (s_top2 s - bytes))
+       | TAIL =>
+           let extra := tail_extra ba bytes s in
+           if stack_full (bytes + extra) s then (None, s)
+           else
+             let bytes := bytes + extra in
+             (Some (s_top2 s - bytes),
+              mkStack (s_size s) (s_used s + bytes) (s_top1 s) (s_top2 s - bytes))
        end.
 
 Definition user_free (bytes : Z) (e : end_t) (s : stack) : stack :=
@@ -83,13 +107,12 @@ Definition tail_reclaim_stack (s : stack) : stack :=
 (* p?gstrf_WorkFree, USER branch: nothing is released (other threads may still be running) *)
 Definition work_free_stack (s : stack) : stack := s.
 
-(* NotDoubleAlign / DoubleAlign on the address  base + off,  base mod 8 = ba *)
-Definition misalign (ba off : Z) : Z := (ba + off) mod 8.
-Definition align_up_extra (ba off : Z) : Z := (8 - misalign ba off) mod 8.   (* DoubleAlign(a) - a *)
-
 (* ------------------------------------------------------------------ *)
 (* A client of the bare allocator that respects the stack discipline the allocator was written for:
-   it frees only the most recent live block of an end (or, like the next p?gstrf_MemInit, the whole tail). *)
+   it frees only the most recent live block of an end (or, like the next p?gstrf_MemInit, the whole tail).
+   The client knows the byte count it asked for, not the alignment slack (0..7 bytes, above the block) that the
+   allocator adds to a TAIL request: it records (offset, bytes) and frees `bytes`; the slack of a freed TAIL block
+   stays taken until the tail is reclaimed as a whole.  ba = (address of the buffer) mod 8. *)
 Inductive req :=
 | RMalloc (bytes : Z) (e : end_t)
 | RFreeLast (e : end_t)
@@ -104,10 +127,10 @@ Record ust := mkUst {
 
 Definition init_ust (lwork : Z) : ust := mkUst (setup_stack lwork) [] [].
 
-Definition do_req (r : req) (u : ust) : ust :=
+Definition do_req (ba : Z) (r : req) (u : ust) : ust :=
   match r with
   | RMalloc bytes e =>
-      match user_malloc bytes e (u_stack u) with
+      match user_malloc ba bytes e (u_stack u) with
       | (None, _) => u
       | (Some off, s) =>
           match e with
@@ -129,7 +152,7 @@ Definition do_req (r : req) (u : ust) : ust :=
   | RReclaim => mkUst (tail_reclaim_stack (u_stack u)) (u_head u) []
   end.
 
-Definition run_reqs (rs : list req) (u : ust) : ust := fold_left (fun u r => do_req r u) rs u.
+Definition run_reqs (ba : Z) (rs : list req) (u : ust) : ust := fold_left (fun u r => do_req ba r u) rs u.
 
 Definition req_ok (r : req) : Prop :=
   match r with RMalloc bytes _ => 0 <= bytes | _ => True end.
@@ -222,11 +245,11 @@ Definition int_malloc (count : Z) (m : mem) : res ptr :=
   let '(p, m1) := sys_malloc (count * iword) m in
   if is_null p then Stop ExitDiag m1 else Ok p m1.
 
-(* ?user_malloc on the state *)
+(* ?user_malloc on the state; the event carries the byte count taken (TAIL: alignment slack included) *)
 Definition umalloc (bytes : Z) (e : end_t) (m : mem) : ptr * mem :=
-  match user_malloc bytes e (m_stack m) with
+  match user_malloc (m_ba m) bytes e (m_stack m) with
   | (None, _) => (PNull, m)
-  | (Some off, s) => (POff off, add_log (set_stack m s) (EvUser off bytes e))
+  | (Some off, s) => (POff off, add_log (set_stack m s) (EvUser off (granted_bytes (m_ba m) bytes e (m_stack m)) e))
   end.
 
 Definition ufree (bytes : Z) (e : end_t) (m : mem) : mem :=
@@ -505,6 +528,8 @@ Definition work_init (n w : Z) (m : mem) : res (Z * ptr * ptr) :=
         let '(dw, m2) := umalloc dsize TAIL m1 in
         match dw with
         | POff off =>
+            (* since fix 'tail blocks are aligned by the allocator' off is aligned and this branch is dead
+               (UstackProofs.umalloc_tail_aligned, work_init_no_shift); the C statement is still there *)
             if negb (misalign (m_ba m2) off =? 0) then
               (* DoubleAlign(p) - 8: round DOWN to the previous 8-byte boundary *)
               let extra := misalign (m_ba m2) off in
@@ -531,7 +556,8 @@ Inductive tstate :=
 | TStart                          (* before  iwork = user_malloc(isize, TAIL) *)
 | TGotI (iw : Z)                  (* before  dwork = user_malloc(dsize, TAIL) *)
 | TGotD (iw dw extra : Z)         (* dwork was misaligned and has been moved down by extra: before the
-                                     locked section  top2 -= extra; used += extra *)
+                                     locked section  top2 -= extra; used += extra
+                                     (unreachable since the allocator aligns TAIL blocks itself) *)
 | TReady (iw dw : Z)              (* WorkInit returned 0; the thread is working with its two blocks *)
 | TFailed (code : Z)              (* WorkInit returned code > 0: the thread returns at once *)
 | TDone.                          (* WorkFree executed *)
@@ -540,11 +566,11 @@ Definition thread_step (n w ba : Z) (t : tstate) (s : stack) : tstate * stack :=
   let isize := work_isize n w in
   let dsize := work_dsize n w in
   match t with
-  | TStart => match user_malloc isize TAIL s with
+  | TStart => match user_malloc ba isize TAIL s with
               | (Some off, s1) => (TGotI off, s1)
               | (None, _) => (TFailed (isize + n), s)
               end
-  | TGotI iw => match user_malloc dsize TAIL s with
+  | TGotI iw => match user_malloc ba dsize TAIL s with
                 | (Some off, s1) => if misalign ba off =? 0 then (TReady iw off, s1)
                                     else (TGotD iw (off - misalign ba off) (misalign ba off), s1)
                 | (None, _) => (TFailed (isize + dsize + n), s)
